@@ -131,11 +131,23 @@ def run(ctx) -> None:
         rep.violate("C19.R1", inject, inject.node, "type hints (forward references) are never resolved")
     else:
         FR = rfr[0]
+        # the "already resolved" flag: what the resolving function sets to True when it is done
+        flags = {t.id for n in walk_own(FR.node) if isinstance(n, ast.Assign) and isinstance(n.value, ast.Constant) and n.value.value is True for t in n.targets if isinstance(t, ast.Name)}
+        flags |= {x for x in flags}
+
+        def reaches_fr(g, depth=2) -> bool:
+            if g is FR:
+                return True
+            if depth == 0:
+                return False
+            return any(cal.kind == "func" and cal.func is not g and reaches_fr(cal.func, depth - 1) for _, cal in a.func_calls(g))
+
         for R in (RS, RA):
             cfg = a.cfg(R)
-            calls = [n for n in cfg.live_nodes() if any(cal.kind == "func" and cal.func is FR for _, cal in a.node_calls(R, cfg, n))]
+            # directly, or through a helper (e.g. one that takes a lock and re-checks the flag)
+            calls = [n for n in cfg.live_nodes() if any(cal.kind == "func" and reaches_fr(cal.func) for _, cal in a.node_calls(R, cfg, n))]
             lk = [n for c in lookups(R) for n in cfg.nodes_containing(c)]
-            guarded = bool(calls) and any("resolved" in ast.unparse(t.ast) for t, lab in controlling_tests(cfg, calls[0]))
+            guarded = bool(calls) and any((names_in(t.ast) & flags) if flags else "resolved" in ast.unparse(t.ast) for t, lab in controlling_tests(cfg, calls[0]))
             rep.check("C19.R1", guarded and all(lk_n.id in cfg.reach([calls[0].id]) for lk_n in lk), R, calls[0].ast if calls else R.node, "forward references are resolved (once) before the first lookup", "annotations are not resolved before the lookups (or on every call)")
 
         # ------------------------------------------------------------------ R4 optional detection
